@@ -6,7 +6,7 @@ import re
 import vlib
 from vlib import Check
 
-NT = 6
+NT = 9
 OPN = {0: "Lookup", 1: "Apply", 2: "Return", 3: "When", 4: "Cancel", 5: "Reset", 6: "Pkg", 7: "VarLookup"}
 
 
@@ -168,7 +168,7 @@ def run(replay=None):
     ck = Check("C12", "proof")
     ck.assumptions = [
         "domain of the whole-history theorem and of the generator (Proofs/MockerHistory.ok): each target is used through one builder; Apply/Return/When/Cancel go through a handle of the target's CURRENT mocker (a handle of a mocker that was cancelled and then superseded by a newer lookup is stale and outside the property)",
-        "targets: two functions, two exported and one unexported pointer-receiver method of one struct, one unexported function (by name, through Pkg(..).ExportFunc), all func(int) int; stub configurations are Return(r) and When(v).Return(r)",
+        "targets: two functions, two exported and one unexported pointer-receiver method of one struct, one unexported function (by name, through Pkg(..).ExportFunc), two instantiations of a generic function with identical Go types (no conditions on arguments for these: known finding F06a), a method of an interface variable (configured through As with a new function literal in every chain), all func(int) int; stub configurations are Return(r) and When(v).Return(r)",
     ]
     ok, failed, log = ck.prove(["Props/C12.vo"], label="Props/C12")
     if not ok:
